@@ -35,7 +35,7 @@ func posTests(b *ssa.BasicBlock) []posTest {
 		if !ok {
 			continue
 		}
-		out = append(out, posTest{Recv: recv, NonZero: (bo.Op == token.NEQ) == a.Pol})
+		out = append(out, posTest{Recv: a.resolve(recv), NonZero: (bo.Op == token.NEQ) == a.Pol})
 	}
 	return out
 }
